@@ -139,6 +139,21 @@ def families(tier, seed):
     return fams
 
 
+def _twin_touching_segments():
+    """mutant: collinear segments that merely touch are reported as disjoint"""
+    import sys as _sys
+    it = _sys.modules['Geometry3D.calc.intersection']
+    orig = it.inter_segment_segment
+
+    def inter_segment_segment(a, b):
+        r = orig(a, b)
+        return None if isinstance(r, Point) and a.line == b.line else r
+    it.inter_segment_segment = inter_segment_segment
+
+
+TWINS = {'touching collinear segments -> None': (r'^Segment-Segment/collinear/axis/fwd$', _twin_touching_segments)}
+
+
 META = dict(
     title='flat x flat intersection is the common point set',
     level_text=('Bounded symbolic model checking of the real intersection() code for all 25 ordered pairs of flat types: the second operand '
